@@ -10,6 +10,7 @@ import (
 	"sort"
 	"strings"
 	"testing"
+	"time"
 
 	"github.com/wkhere/bcl"
 
@@ -250,3 +251,5 @@ func mustRead(path string) string {
 	must(err)
 	return string(b)
 }
+
+const timeout20 = 20 * time.Second
